@@ -215,4 +215,8 @@ r('rf-first-combos-helper-by-position',
 r('rf-nth-advance-plan',
   diff='selftest/seed_diffs/C15-3-corrected.diff', props=['C15', 'C02', 'C05', 'C03'])
 
+# seed C14-6 with its slip repaired: the taiko counting closure called by hand right after each next(), before the early exits
+r('rf-taiko-count-by-hand',
+  diff='selftest/seed_diffs/C14-6-corrected.diff', props=['C14', 'C02', 'C12'])
+
 REFACTORS = R
